@@ -396,6 +396,11 @@ func c08Case(r *core.Run, idx int, rng *rand.Rand) {
 		}
 		c.Labels = append(c.Labels, "stored_without_identifier")
 	}
+	if c.Signed && c.Binding == "redirect" && rng.Intn(2) == 0 {
+		// the query of a signed redirect message in the other legal percent-encoding styles
+		c.Pct = []string{spsim.PctLower, spsim.Pct20, spsim.PctAll}[rng.Intn(3)]
+		c.Labels = append(c.Labels, "pct="+c.Pct)
+	}
 	e, call := c.run(rng, mod)
 	out := judgeSSOOutcome(r, wl, idx, c.label(), e, call, c.describe())
 	if kind == 6 && call.Accepted() {
